@@ -16,6 +16,14 @@
 (*     "sp": pi*sqrt(n).  The harness evaluates the sum numerically; TLC        *)
 (*     decides the laws on the integers.                                        *)
 (*                                                                              *)
+(*   * EmptyStateSpace is RV with n = 0 (one state, distance 0); SpaceTime is a   *)
+(*     space component (R^n) and a time component on lattices of the same unit,  *)
+(*     a speed limit vMax = v[1]/v[2] and weights adding up to 1: the distance   *)
+(*     is the formal term "inf" when the time between the two states is less     *)
+(*     than the motion needs at vMax, else the weighted sum of the two           *)
+(*     component distances; it claims no triangle inequality and an infinite     *)
+(*     extent.                                                                   *)
+(*                                                                              *)
 (* The model states the CONTRACT (what the property says a distance / an        *)
 (* interpolant is: Euclidean length, shorter arc, rotation angle with q = -q,   *)
 (* weighted sum; point at fraction t of a shortest geodesic, represented in     *)
@@ -57,6 +65,11 @@ Comp(real, sub, w) == [k |-> "Comp", real |-> real, sub |-> sub, w |-> w]
 SE2(lo, hi, un, ud, N) == Comp("SE2", <<RV(2, lo, hi, un, ud), SO2(N)>>, <<<<1, 1>>, <<1, 2>>>>)
 SE3(lo, hi, un, ud) == Comp("SE3", <<RV(3, lo, hi, un, ud), SO3>>, <<<<1, 1>>, <<1, 1>>>>)
 Wrap(S) == [k |-> "Wrap", of |-> S]
+(* EmptyStateSpace: a RealVectorStateSpace of dimension 0 (the harness builds the shipped class)          *)
+EmptyS == [k |-> "RV", n |-> 0, lo |-> 0, hi |-> 0, u |-> <<1, 1>>, real |-> "Empty"]
+(* SpaceTimeStateSpace(space, vMax, timeWeight): sub = <<R^n, time>>, w = <<1 - timeWeight, timeWeight>> *)
+SpaceTime(space, time, w, v) == [k |-> "SpaceTime", sub |-> <<space, time>>, w |-> w, v |-> v]
+IsComp(S) == S.k \in {"Comp", "SpaceTime"}     \* states, bounds and interpolation are the compound's
 (* the shipped SE(2) / SE(3) classes after CompoundStateSpace::setSubspaceWeight(): still the real class, *)
 (* other weights; the contract is the same weighted sum (and weighted sum of extents)                  *)
 SE2w(lo, hi, un, ud, N, w1, w2) == Comp("SE2", <<RV(2, lo, hi, un, ud), SO2(N)>>, <<w1, w2>>)
@@ -117,7 +130,7 @@ States(S) ==
       [] S.k = "Time" -> {F * c : c \in S.lo..S.hi}
       [] S.k = "Disc" -> S.lo..S.hi
       [] S.k = "Torus" -> [1..2 -> {F * c : c \in (-S.N)..(S.N - 1)}]
-      [] S.k = "Comp" -> ProdSets([i \in 1..Len(S.sub) |-> States(S.sub[i])])
+      [] IsComp(S) -> ProdSets([i \in 1..Len(S.sub) |-> States(S.sub[i])])
       [] S.k = "Wrap" -> States(S.of)
 
 RECURSIVE InBounds(_, _)
@@ -128,19 +141,19 @@ InBounds(S, v) ==
       [] S.k = "Time" -> v >= F * S.lo /\ v <= F * S.hi
       [] S.k = "Disc" -> v >= S.lo /\ v <= S.hi
       [] S.k = "Torus" -> \A i \in 1..2 : v[i] >= -F * S.N /\ v[i] < F * S.N
-      [] S.k = "Comp" -> \A i \in 1..Len(S.sub) : InBounds(S.sub[i], v[i])
+      [] IsComp(S) -> \A i \in 1..Len(S.sub) : InBounds(S.sub[i], v[i])
       [] S.k = "Wrap" -> InBounds(S.of, v)
 
 RECURSIVE Equal(_, _, _)
 Equal(S, a, b) ==
     CASE S.k = "SO3" -> NormG(a).pos = 0 /\ NormG(b).pos = 0 /\ SameRot(NormG(a).q1, NormG(b).q1)
-      [] S.k = "Comp" -> \A i \in 1..Len(S.sub) : Equal(S.sub[i], a[i], b[i])
+      [] IsComp(S) -> \A i \in 1..Len(S.sub) : Equal(S.sub[i], a[i], b[i])
       [] S.k = "Wrap" -> Equal(S.of, a, b)
       [] OTHER -> a = b
 
 HasKind(S, disc) ==   \* does the tree contain a discrete (disc = TRUE) / a continuous leaf
     LET RECURSIVE H(_)
-        H(T) == CASE T.k = "Comp" -> \E i \in 1..Len(T.sub) : H(T.sub[i])
+        H(T) == CASE IsComp(T) -> \E i \in 1..Len(T.sub) : H(T.sub[i])
                   [] T.k = "Wrap" -> H(T.of)
                   [] OTHER -> (T.k = "Disc") = disc
     IN  H(S)
@@ -151,6 +164,14 @@ Term(c, f, n) == [c |-> c, f |-> f, n |-> n]
 ScaleSum(w, s) == [k \in 1..Len(s) |-> Term(RMul(w, s[k].c), s[k].f, s[k].n)]
 RECURSIVE SumSqFrom(_, _, _)
 SumSqFrom(a, b, k) == IF k > Len(a) THEN 0 ELSE (a[k] - b[k]) * (a[k] - b[k]) + SumSqFrom(a, b, k + 1)
+
+(* space-time: squared distance of the space component and time between the states, in fine units;     *)
+(* the motion needs ds / vMax: it is not possible iff ds v[2] > dt v[1] (compared on the squares)      *)
+STSpaceSq(S, a, b) == SumSqFrom(a[1], b[1], 1)
+STTime(S, a, b) == Abs(a[2] - b[2])
+STUnreachable(S, a, b) == STSpaceSq(S, a, b) * S.v[2] * S.v[2] > STTime(S, a, b) * STTime(S, a, b) * S.v[1] * S.v[1]
+Inf == <<[c |-> <<1, 1>>, f |-> "inf", n |-> 1]>>
+IsInf(s) == Len(s) = 1 /\ s[1].f = "inf"
 
 RECURSIVE Dist(_, _, _)
 Dist(S, a, b) ==
@@ -163,7 +184,12 @@ Dist(S, a, b) ==
                               y == SO2d(S.N, a[2], b[2])
                           IN  <<Term(Rat(1, F * S.N), "sp", x * x + y * y)>>
       [] S.k = "Comp" -> Flat([i \in 1..Len(S.sub) |-> ScaleSum(S.w[i], Dist(S.sub[i], a[i], b[i]))])
+      [] S.k = "SpaceTime" -> IF STUnreachable(S, a, b) THEN Inf
+                              ELSE Flat([i \in 1..2 |-> ScaleSum(S.w[i], Dist(S.sub[i], a[i], b[i]))])
       [] S.k = "Wrap" -> Dist(S.of, a, b)
+
+(* SpaceTimeStateSpace::timeToCoverDistance: the distance of the space component over vMax *)
+TimeToCover(S, a, b) == ScaleSum(<<S.v[2], S.v[1]>>, Dist(S.sub[1], a[1], b[1]))
 
 (* the same distance, computed top-down: every leaf term carries the product of the   *)
 (* weights on its path (second formulation used by the law CompoundIsWeightedSum)     *)
@@ -182,6 +208,7 @@ Ext(S) ==
       [] S.k = "Disc" -> <<Term(<<1, 1>>, "i", S.hi - S.lo)>>
       [] S.k = "Torus" -> <<Term(Rat(1, F * S.N), "sp", 2 * (F * S.N) * (F * S.N))>>
       [] S.k = "Comp" -> Flat([i \in 1..Len(S.sub) |-> ScaleSum(S.w[i], Ext(S.sub[i]))])
+      [] S.k = "SpaceTime" -> Inf       \* "maximum extent is infinite, as the distance can be infinite even with bounded time"
       [] S.k = "Wrap" -> Ext(S.of)
 
 Zero(s) == \A k \in 1..Len(s) : s[k].n = 0
@@ -211,7 +238,7 @@ Interp(S, a, b, tn, td) ==     \* the SET of admissible results (two when two ge
       [] S.k = "Disc" -> IF tn = 0 THEN {a} ELSE IF tn = td THEN {b} ELSE S.lo..S.hi
       [] S.k = "Torus" -> {<<x, y>> : x \in InterpSO2(S.N, a[1], b[1], tn, td),
                                       y \in InterpSO2(S.N, a[2], b[2], tn, td)}
-      [] S.k = "Comp" -> ProdSets([i \in 1..Len(S.sub) |-> Interp(S.sub[i], a[i], b[i], tn, td)])
+      [] IsComp(S) -> ProdSets([i \in 1..Len(S.sub) |-> Interp(S.sub[i], a[i], b[i], tn, td)])
       [] S.k = "Wrap" -> Interp(S.of, a, b, tn, td)
 
 (* dp = (i/8) d, term by term *)
@@ -241,6 +268,11 @@ Cls(S, a, b) ==
                          ELSE IF Abs(a - b) = S.hi - S.lo THEN {"disc:extent"} ELSE {"disc:generic"}
       [] S.k = "Torus" -> Cls(SO2(S.N), a[1], b[1]) \cup Cls(SO2(S.N), a[2], b[2])
       [] S.k = "Comp" -> UNION {Cls(S.sub[i], a[i], b[i]) : i \in 1..Len(S.sub)}
+      [] S.k = "SpaceTime" -> UNION {Cls(S.sub[i], a[i], b[i]) : i \in 1..2}
+                              \cup (IF STUnreachable(S, a, b) THEN {"spacetime:unreachable"}
+                                    ELSE IF STSpaceSq(S, a, b) * S.v[2] * S.v[2] = STTime(S, a, b) * STTime(S, a, b) * S.v[1] * S.v[1]
+                                              /\ a # b
+                                    THEN {"spacetime:on-the-light-cone"} ELSE {"spacetime:reachable-generic"})
       [] S.k = "Wrap" -> Cls(S.of, a, b)
 
 (* ------------------------------ catalogue ------------------------------ *)
@@ -274,6 +306,9 @@ Sp == CASE SpaceId = "rv1" -> RV(1, -2, 2, 1, 1)
         [] SpaceId = "wrap-se2w" -> Wrap(SE2w(0, 1, 1, 1, 2, W(1, 1), W(1, 16)))
         [] SpaceId = "wrap-se2" -> Wrap(SE2(0, 1, 1, 1, 4))
         [] SpaceId = "wrap-so3" -> Wrap(SO3)
+        [] SpaceId = "empty" -> EmptyS
+        [] SpaceId = "spacetime" -> SpaceTime(RV(1, -2, 2, 1, 1), TimeS(0, 3, 1, 1), <<W(1, 2), W(1, 2)>>, <<1, 1>>)
+        [] SpaceId = "spacetime2" -> SpaceTime(RV(2, -1, 1, 1, 1), TimeS(0, 2, 1, 1), <<W(3, 4), W(1, 4)>>, <<2, 1>>)
         [] SpaceId = "wrap-nest" -> Wrap(Comp("Compound", <<Wrap(SO2(4)), RV(1, 0, 2, 1, 4)>>, <<W(3, 4), W(2, 1)>>))
 
 Exempt == IsHybridOrDiscrete(Sp)
@@ -288,7 +323,7 @@ Code(S, v) ==       \* an integer code of a lattice state (not injective; only u
       [] S.k = "Time" -> v \div F - S.lo
       [] S.k = "Disc" -> v - S.lo
       [] S.k = "Torus" -> 5 * ((v[1] \div F) + S.N) + (v[2] \div F) + S.N
-      [] S.k = "Comp" -> LET RECURSIVE Acc(_)
+      [] IsComp(S) -> LET RECURSIVE Acc(_)
                              Acc(i) == IF i > Len(S.sub) THEN 0 ELSE (2 * i + 1) * Code(S.sub[i], v[i]) + Acc(i + 1)
                          IN  Acc(1)
       [] S.k = "Wrap" -> Code(S.of, v)
@@ -344,42 +379,57 @@ Spec == Init /\ [][Next]_cs
 (* ------------------------------ the laws, on the model itself ------------------------------ *)
 WeightsPositive ==
     LET RECURSIVE P(_)
-        P(T) == CASE T.k = "Comp" -> \A i \in 1..Len(T.sub) : T.w[i][1] > 0 /\ T.w[i][2] > 0 /\ P(T.sub[i])
+        P(T) == CASE IsComp(T) -> \A i \in 1..Len(T.sub) : T.w[i][1] > 0 /\ T.w[i][2] > 0 /\ P(T.sub[i])
                   [] T.k = "Wrap" -> P(T.of)
                   [] OTHER -> TRUE
     IN  P(Sp)
 ASSUME WeightsPositive
+(* space-time: R^n and time on lattices of the same unit, weights (1 - timeWeight, timeWeight), vMax > 0 *)
+ASSUME Sp.k = "SpaceTime" => /\ Sp.sub[1].k = "RV" /\ Sp.sub[2].k = "Time" /\ Sp.sub[1].u = Sp.sub[2].u
+                             /\ Sp.w[1][2] = Sp.w[2][2] /\ Sp.w[1][1] + Sp.w[2][1] = Sp.w[1][2]
+                             /\ Sp.v[1] > 0 /\ Sp.v[2] > 0
 ExtSp == Ext(Sp)
+ClaimsMetric == Sp.k # "SpaceTime"     \* "no metric state space, as the triangle inequality is not satisfied"
 
 IsPair == cs.kind = "pair"
 NonNegative == IsPair => \A k \in 1..Len(cs.d) : cs.d[k].n >= 0 /\ cs.d[k].c[1] > 0 /\ cs.d[k].c[2] > 0
 Identity == IsPair => (cs.eq => Zero(cs.d))
 Positivity == IsPair => (~cs.eq => ~Zero(cs.d))
 Symmetry == IsPair => cs.d = cs.r
-ExtentBound == IsPair => /\ Len(cs.d) = Len(ExtSp)
-                         /\ \A k \in 1..Len(cs.d) : /\ cs.d[k].c = ExtSp[k].c /\ cs.d[k].f = ExtSp[k].f
-                                                     /\ cs.d[k].n <= ExtSp[k].n
+ExtentBound == IsPair => \/ IsInf(ExtSp)
+                         \/ /\ Len(cs.d) = Len(ExtSp)
+                            /\ \A k \in 1..Len(cs.d) : /\ cs.d[k].c = ExtSp[k].c /\ cs.d[k].f = ExtSp[k].f
+                                                        /\ cs.d[k].n <= ExtSp[k].n
 CompoundIsWeightedSum == IsPair => cs.d = cs.lt
-Triangle == cs.kind = "tri" => TriOK(Sp, cs.a, cs.b, cs.c)
+Triangle == (cs.kind = "tri" /\ ClaimsMetric) => TriOK(Sp, cs.a, cs.b, cs.c)
+(* space-time: infinite iff the time between the states is less than timeToCoverDistance (compared on the    *)
+(* squares, the latter read off its own formal term); a finite distance is the weighted sum of the parts      *)
+SpaceTimeLaw == (IsPair /\ Sp.k = "SpaceTime") =>
+    LET need == TimeToCover(Sp, cs.a, cs.b)[1]          \* c[1]/c[2] * sqrt(n) lattice units (c carries the unit)
+        have == STTime(Sp, cs.a, cs.b)
+        u == Sp.sub[2].u
+    IN  /\ IsInf(cs.d) <=> need.c[1] * need.c[1] * need.n * (F * u[2]) * (F * u[2])
+                              > have * have * need.c[2] * need.c[2] * u[1] * u[1]
+        /\ ~IsInf(cs.d) => cs.d = LeafTerms([Sp EXCEPT !.k = "Comp"], cs.a, cs.b, <<1, 1>>)
 
 IsInterp == cs.kind = "interp"
 Endpoints == IsInterp => /\ cs.i = 0 => \A x \in cs.pq : Equal(Sp, x[1], cs.a)
                          /\ cs.i = 8 => \A x \in cs.pq : Equal(Sp, x[1], cs.b)
 StaysInBounds == IsInterp => \A x \in cs.pq : InBounds(Sp, x[1]) /\ InBounds(Sp, x[2])
 Reparameterisation == (IsInterp /\ ~Exempt) => \A x \in cs.pq : x[2] \in cs.tt
-Proportionality == (IsInterp /\ ~Exempt) => \A x \in cs.pq : ScaledBy(Dist(Sp, cs.a, x[1]), cs.d, cs.i)
+Proportionality == (IsInterp /\ ~Exempt /\ ~IsInf(cs.d)) => \A x \in cs.pq : ScaledBy(Dist(Sp, cs.a, x[1]), cs.d, cs.i)
 
 (* ------------------------------ export (M3) ------------------------------ *)
 RECURSIVE JS(_, _)
 JS(S, v) ==      \* JSON-friendly projection of a model value
     CASE S.k = "SO3" -> IF v.pos = 0 THEN v.q1 ELSE v
-      [] S.k = "Comp" -> [i \in 1..Len(S.sub) |-> JS(S.sub[i], v[i])]
+      [] IsComp(S) -> [i \in 1..Len(S.sub) |-> JS(S.sub[i], v[i])]
       [] S.k = "Wrap" -> JS(S.of, v)
       [] OTHER -> v
 
 RECURSIVE Exp07(_, _, _, _, _)
 Exp07(S, a, b, i, j) ==
-    CASE S.k = "Comp" -> [sub |-> [m \in 1..Len(S.sub) |-> Exp07(S.sub[m], a[m], b[m], i, j)]]
+    CASE IsComp(S) -> [sub |-> [m \in 1..Len(S.sub) |-> Exp07(S.sub[m], a[m], b[m], i, j)]]
       [] S.k = "Wrap" -> Exp07(S.of, a, b, i, j)
       [] OTHER -> [alts |-> IF Exempt THEN {<<JS(S, p)>> : p \in Interp(S, a, b, i, 8)}
                             ELSE UNION {{<<JS(S, p), JS(S, q)>> : q \in Interp(S, p, b, j, 8)} :
@@ -391,18 +441,19 @@ LandsOnSeam(c) ==     \* an interpolant of an SO2 leaf is exactly -pi
     LET RECURSIVE L(_, _)
         L(S, v) == CASE S.k = "SO2" -> v = -F * S.N
                      [] S.k = "Torus" -> v[1] = -F * S.N \/ v[2] = -F * S.N
-                     [] S.k = "Comp" -> \E m \in 1..Len(S.sub) : L(S.sub[m], v[m])
+                     [] IsComp(S) -> \E m \in 1..Len(S.sub) : L(S.sub[m], v[m])
                      [] S.k = "Wrap" -> L(S.of, v)
                      [] OTHER -> FALSE
     IN  \E x \in c.pq : L(Sp, x[1])
 
-Header == [k |-> "space", id |-> SpaceId, sp |-> Sp, ext |-> Ext(Sp), metric |-> TRUE, sym |-> TRUE,
+Header == [k |-> "space", id |-> SpaceId, sp |-> Sp, ext |-> Ext(Sp), metric |-> ClaimsMetric, sym |-> TRUE,
            exempt |-> Exempt, states |-> Cardinality(All), prop |-> Prop]
 ASSUME PrintT(ToJson(Header))
 
 Out(c) ==
     CASE c.kind = "pair" -> [k |-> "pair", a |-> JS(Sp, c.a), b |-> JS(Sp, c.b), d |-> c.d,
-                             eq |-> c.eq, cls |-> Cls(Sp, c.a, c.b)]
+                             eq |-> c.eq, cls |-> Cls(Sp, c.a, c.b),
+                             ttc |-> IF Sp.k = "SpaceTime" THEN TimeToCover(Sp, c.a, c.b) ELSE <<>>]
       [] c.kind = "tri" -> [k |-> "tri", a |-> JS(Sp, c.a), b |-> JS(Sp, c.b), c |-> JS(Sp, c.c),
                             dab |-> c.dab, dbc |-> c.dbc, dac |-> c.dac,
                             cls |-> Cls(Sp, c.a, c.b) \cup Cls(Sp, c.b, c.c) \cup Cls(Sp, c.a, c.c)]
